@@ -592,7 +592,7 @@ func (p *parser) scanRegex() (*RegexNode, error) {
 			p.addUnitSet(cc)
 
 		case '(':
-			if p.useRE2() && p.charsRight() >= 3 && p.rightChar(0) == '?' && p.rightChar(1) == 'P' && p.rightChar(2) == '=' {
+			if p.useRE2() && !p.ignoreNextParen && p.charsRight() >= 3 && p.rightChar(0) == '?' && p.rightChar(1) == 'P' && p.rightChar(2) == '=' {
 				n, err := p.scanPythonNamedBackref()
 				if err != nil {
 					return nil, err
